@@ -138,6 +138,7 @@ impl LibCase {
         rep.shape = sh.finish();
         rep.event_hash = o.event_hash();
         rep.explicit_choices = Some(h.choices.clone());
+        rep.schedule_id = Some(crate::prng::fnv1a(format!("{}|{:?}", h.sched_hash, h.choices).as_bytes()));
         rep.history = json!({
             "engine": "E2 (library scenario)", "scenario": label,
             "sched": {"policy": self.sched.policy, "seed": self.sched.seed},
